@@ -352,8 +352,11 @@ class Interp:
         """
         results = []
         prefix = []
+        snap = self.dom.snapshot_state() if hasattr(self.dom, 'snapshot_state') else None
         while True:
             self._reset_run(prefix)
+            if snap is not None:
+                self.dom.restore_state(snap)          # facts learnt from the branches of one path do not leak into the next
             a = args() if callable(args) else (args or [])
             k = kwargs() if callable(kwargs) else (kwargs or {})
             so = self_obj() if callable(self_obj) else self_obj
